@@ -1217,10 +1217,13 @@ instance (m : Msg) : Decidable m.notSettle := by cases m <;> unfold Msg.notSettl
 /-- the emergency-shutdown steps that stay inside the invariant. Two do not: the redemption of a stable-mint vault leaves its
 record behind (`esmStable`, finding D29: ledger equations shift, `esmStable_inv`), and the wind-down of a first-generation
 auction that collected less than the principal re-creates a vault for the owner whose principal may lie below the debt
-floor (`esmReturn1`: keeps every ledger equation, `esmReturn1_inv`, under an explicit floor premise) -/
+floor (`esmReturn1`: keeps every ledger equation, `esmReturn1_inv`, under an explicit floor premise). The second-generation
+counterpart (`esmReturn2`, auctionsV2 `TriggerEsm`) records collateral that never reaches custody — recorded finding:
+`C01.trigger_esm_counterexample`, exact effect `C01.trigger_esm_effect` -/
 def Msg.esmRegular : Msg → Prop
   | .esmStable _ => False
   | .esmReturn1 .. => False
+  | .esmReturn2 .. => False
   | _ => True
 
 instance (m : Msg) : Decidable m.esmRegular := by cases m <;> unfold Msg.esmRegular <;> infer_instance
@@ -1233,6 +1236,7 @@ theorem step_inv (cfg : Nat → Option Product) (G : Gaps) (hc : CfgOk cfg) (s s
   | settle v => exact absurd hns (by simp [Msg.notSettle])
   | esmStable v => exact absurd hne (by simp [Msg.esmRegular])
   | esmReturn1 v o c i => exact absurd hne (by simp [Msg.esmRegular])
+  | esmReturn2 v o c d f => exact absurd hne (by simp [Msg.esmRegular])
   | esmCollector a d x => exact esmCollector_inv cfg G s s' a d x hinv h
   | esmBurn f a d x => exact esmBurn_inv cfg G s s' f a d x hinv h
   | esmVault v =>
